@@ -72,7 +72,13 @@ fn sweep_case(i: u64, seed: u64, thorough: bool, out: &mut CaseOut) {
     let mut rng = Rng::derive(seed, "c13-sweep", i);
     let replay = json!({"stratum": "format-sweep", "index": i});
     let slen = 1 + rng.below(40);
-    let secret: Vec<u8> = if i % 3 == 0 { b"s".to_vec() } else { rng.bytes(slen) };
+    let mut secret: Vec<u8> = if i % 3 == 0 { b"s".to_vec() } else { rng.bytes(slen) };
+    // secrets are arbitrary byte strings: leading / trailing whitespace (a newline picked up from a
+    // file, say) is part of the secret
+    secret.extend_from_slice([&b""[..], b"\n", b" ", b"\r\n", b"\t"][((i / 3) % 5) as usize]);
+    if (i / 15) % 4 == 1 {
+        secret.insert(0, b' ');
+    }
     let salt: Vec<u8> = rng.bytes(16);
     let key = match SealKey::derive(&salt, &secret) {
         Ok(k) => k,
@@ -84,6 +90,8 @@ fn sweep_case(i: u64, seed: u64, thorough: bool, out: &mut CaseOut) {
     let other_secret = { let mut s = secret.clone(); s[0] ^= 1; s };
     let other_salt = { let mut s = salt.clone(); s[15] ^= 0x80; s };
     let key_other_secret = SealKey::derive(&salt, &other_secret).unwrap();
+    let trimmed: Vec<u8> = secret.trim_ascii().to_vec();
+    let key_trimmed = if trimmed != secret && !trimmed.is_empty() { SealKey::derive(&salt, &trimmed).ok() } else { None };
     let key_other_salt = SealKey::derive(&other_salt, &secret).unwrap();
     let mut nonces: HashSet<Vec<u8>> = HashSet::new();
     let mut queries = vec![];
@@ -186,6 +194,14 @@ fn sweep_case(i: u64, seed: u64, thorough: bool, out: &mut CaseOut) {
                 out.count("mismatches_tried", 1);
                 if res.is_ok() {
                     out.violate(format!("mismatch-accepted/{what}"), format!("a value opened with a different {what}"), replay);
+                    return;
+                }
+            }
+            if let Some(kt) = &key_trimmed {
+                out.count("mismatches_tried", 1);
+                out.count("whitespace_secret_mismatches_tried", 1);
+                if kt.unseal(version_id, sealed.clone()).is_ok() {
+                    out.violate("mismatch-accepted/secret-differing-only-in-surrounding-whitespace".to_string(), "a value opened with the secret stripped of its leading / trailing whitespace".to_string(), replay);
                     return;
                 }
             }
